@@ -511,6 +511,11 @@ pub struct DevQueue {
     pub consumed: Option<u16>,
     /// The device has written its permanent suppression setting (Poll policy).
     pub poll_flag_written: bool,
+    /// Available index as announced by the driver's last index store (used instead of memory
+    /// when the device itself scribbles over the available ring).
+    pub hook_idx: Option<u16>,
+    /// ids the hostile device has reported so far (for repeats)
+    pub reported_ids: Vec<u32>,
 }
 
 #[derive(Copy, Clone, Debug, PartialEq, Eq)]
@@ -554,6 +559,12 @@ pub struct WorldCfg {
     pub step_at_stores: bool,
     /// Report heap blocks freed while they are posted to a live queue (C09 monitor).
     pub heap_watch: bool,
+    /// Hostile device: used-ring ids may be wrong (not outstanding, repeated, out of range),
+    /// lengths arbitrary, the used index may jump forwards or backwards.
+    pub hostile: bool,
+    /// Misbehaving device that overwrites the descriptor table and the available ring (areas it
+    /// must not write) at operation boundaries, while itself working from private snapshots.
+    pub scribble: bool,
 }
 
 impl Default for WorldCfg {
@@ -571,6 +582,8 @@ impl Default for WorldCfg {
             spin_hard_limit: 50_000_000,
             step_at_stores: true,
             heap_watch: true,
+            hostile: false,
+            scribble: false,
         }
     }
 }
@@ -1032,6 +1045,9 @@ impl World {
             self.idle_spins = 0;
         }
         crate::heapwatch::poll(self);
+        if self.cfg.scribble && matches!(kind, PointKind::Op | PointKind::Transport) {
+            self.scribble();
+        }
         if !self.cfg.device_active {
             if kind == PointKind::Spin {
                 self.spin_supervise(false);
